@@ -71,6 +71,10 @@ class World:
         self.eroot = p.root("evil-root", **live)
         self.eaa = p.issue(self.eroot, "evil-aa", issue=[sc.perm_all(1)], **live)
         self.eat = p.issue(self.eaa, app=[36, 37, 638, 99], **live)
+        # a second self-made root that issues tickets DIRECTLY (chain root -> ticket): whatever makes a receiver file a
+        # self-signed certificate with its roots makes packets under it verifiable at once
+        self.eroot1 = p.root("evil-root-1", issue=[sc.perm_all(1)], **live)
+        self.eat1 = p.issue(self.eroot1, app=[36, 37, 638, 99], **live)
         # forged ticket naming the genuine AA, signed by the attacker
         d, k = p.blank(sc.tbs(app=[36, 37], **live), ("sha256AndDigest", self.aa.as_hashedid8()))
         self.forged = p.raw(self.eat.key_id, d, self.aa, own_key_id=k)
@@ -84,7 +88,7 @@ class World:
         self.A = sc.Abs()
         self.A.register_backend(p.backend)
         for c in (self.root, self.aa, self.at1, self.at2, self.at_own, self.eroot, self.eaa, self.eat, self.forged,
-                  self.at_exp, self.aa_exp, self.at_xaa):
+                  self.at_exp, self.aa_exp, self.at_xaa, self.eroot1, self.eat1):
             self.A.cert(c.certificate)
         self.base = []       # (kind, frame)
 
@@ -117,6 +121,63 @@ def reencode(sd):
 
 def resign(w, sd, key_id):
     sd["signature"] = w.pki.backend.sign(sc.CODER.encode_to_be_signed_data(sd["tbsData"]), key_id)
+
+
+def genuine_ticket_of(w, sd):
+    """the genuine sender's ticket object (private key in the world's backend) that signed a base frame"""
+    at_of = {sc.hid8(a.certificate): a for a in (w.at1, w.at2, w.at_own)}
+    if sd["signer"][0] == "digest":
+        return at_of.get(bytes(sd["signer"][1]))
+    if sd["signer"][0] == "certificate" and sd["signer"][1]:
+        return at_of.get(sc.hid8(sd["signer"][1][0]))
+    return None
+
+
+def with_requested_certificate(w, frame, cert):
+    """a GENUINE packet (valid signature of a ticket of the trusted chain: a misbehaving or compromised insider) whose
+    signed headerInfo carries `requestedCertificate = cert` -- the P2PCD field every receiver with a sign service reads
+    after the packet verified.  None when the base frame cannot carry it (DENM profile) """
+    sd = copy.deepcopy(sc.decode_signed(frame[4:])[0])
+    at = genuine_ticket_of(w, sd)
+    if at is None or sd["tbsData"]["headerInfo"].get("psid") == 37:
+        return None
+    sd["tbsData"]["headerInfo"]["requestedCertificate"] = copy.deepcopy(cert.certificate)
+    resign(w, sd, at.key_id)
+    return frame[:4] + reencode(sd)
+
+
+def signed_under(w, frame, ticket, signer_kind, salt=0):
+    """an attacker's packet: the payload of a genuine frame altered, signed with the key of `ticket` (a ticket of a
+    self-made chain), naming it by certificate or by digest"""
+    sd = copy.deepcopy(sc.decode_signed(frame[4:])[0])
+    pl = bytearray(sd["tbsData"]["payload"]["data"]["content"][1])
+    pl[-1] ^= 0x33 ^ (salt & 0x0F)
+    sd["tbsData"]["payload"]["data"]["content"] = ("unsecuredData", bytes(pl))
+    resign(w, sd, ticket.key_id)
+    sd["signer"] = ("certificate", [ticket.certificate]) if signer_kind == "certificate" else ("digest", ticket.as_hashedid8())
+    return frame[:4] + reencode(sd)
+
+
+def with_trust_injection(rng, w, frames):
+    """history class `trust-store injection`: somewhere in the sequence a genuine packet carries a CA certificate in
+    requestedCertificate (a self-made root, a self-made AA, an expired / unknown / known authority, a ticket), and
+    packets signed under the self-made chains arrive BEFORE and AFTER it.  Nothing received -- however genuine its
+    carrier -- may extend the set of trusted roots (property: `root certificate configured as trusted`)"""
+    out = list(frames)
+    carriers = [f for _, f in w.base if with_requested_certificate(w, f, w.eroot1) is not None]
+    if not carriers:
+        return out
+    for _ in range(rng.choice([1, 1, 2])):
+        cert = rng.choice([w.eroot1, w.eroot1, w.eroot1, w.eroot, w.eaa, w.aa_exp, w.aa, w.root, w.at2])
+        i = rng.randrange(len(out) + 1)
+        out.insert(i, ("field:requested-cert", with_requested_certificate(w, rng.choice(carriers), cert)))
+        # attacker packets under the injected root, before and after
+        for n in range(rng.choice([2, 3, 4])):
+            tk = rng.choice([w.eat1, w.eat1, w.eat])
+            kind = "certificate" if n % 2 == 0 or rng.random() < 0.3 else "digest"
+            j = rng.randrange(len(out) + 1) if rng.random() < 0.3 else rng.randrange(i + 1, len(out) + 1)
+            out.insert(j, ("selfmade-after-injection", signed_under(w, rng.choice(w.base)[1], tk, kind, salt=n)))
+    return out
 
 
 def mutate(ctx, w, frame):
@@ -183,7 +244,7 @@ def mutate(ctx, w, frame):
                          "r", "s", "s-malleate", "cert-field", "attacker-sig", "attacker-sig-own-cert", "attacker-digest",
                          "selfmade-chain", "forged-ticket", "resigned-genuine", "signer-self", "two-certs", "sig-format",
                          "expired-ticket", "expired-ticket-backdated", "ticket-under-expired-aa",
-                         "signer-own-ticket", "signer-own-ticket", "signer-ca-digest"])
+                         "signer-own-ticket", "signer-own-ticket", "signer-ca-digest", "requested-cert"])
     at_of = {sc.hid8(w.at1.certificate): w.at1, sc.hid8(w.at2.certificate): w.at2}
     if sd["signer"][0] == "digest":
         genuine_at = at_of.get(bytes(sd["signer"][1]))
@@ -266,8 +327,19 @@ def mutate(ctx, w, frame):
         resign(w, sd, w.eat.key_id)
         sd["signer"] = ("digest", w.eat.as_hashedid8())
     elif choice == "selfmade-chain":
-        resign(w, sd, w.eat.key_id)
-        sd["signer"] = ("certificate", [w.eat.certificate, w.eaa.certificate, w.eroot.certificate][:rng.choice([1, 2, 3])])
+        if rng.random() < 0.35:        # ticket issued directly by a self-made root
+            resign(w, sd, w.eat1.key_id)
+            sd["signer"] = rng.choice([("certificate", [w.eat1.certificate]), ("digest", w.eat1.as_hashedid8()),
+                                       ("certificate", [w.eat1.certificate, w.eroot1.certificate])])
+        else:
+            resign(w, sd, w.eat.key_id)
+            sd["signer"] = ("certificate", [w.eat.certificate, w.eaa.certificate, w.eroot.certificate][:rng.choice([1, 2, 3])])
+    elif choice == "requested-cert":
+        # requestedCertificate in the signed header of a packet re-signed by its genuine sender (DENM: forbidden field)
+        if genuine_at is not None:
+            cert = rng.choice([w.eroot1, w.eroot, w.eaa, w.aa_exp, w.aa, w.root, w.at2, w.forged])
+            hi["requestedCertificate"] = copy.deepcopy(cert.certificate)
+            resign(w, sd, genuine_at.key_id)
     elif choice == "forged-ticket":
         resign(w, sd, w.forged.key_id)
         sd["signer"] = rng.choice([("certificate", [w.forged.certificate]), ("digest", w.forged.as_hashedid8())])
@@ -528,6 +600,9 @@ def check_sequences(ctx, w, clock, n_seq, tag, extra_batches=()):
         if ctx.rng.random() < 0.3:
             frames += [frames[ctx.rng.randrange(len(frames))] for _ in range(3)]   # replays
         frames = with_faults_and_probes(ctx.rng, w, frames)
+        if ctx.rng.random() < 0.3:
+            frames = with_trust_injection(ctx.rng, w, frames)
+            ctx.cover("sequences_with_trust_store_injection")
         cfg = receiver_config(ctx.rng)
         lines, reals = run_sequence(ctx, w, clock, frames, cfg, ctx.rng.random() < 0.3, f"{tag}{s}")
         batches.append((lines, reals, f"{tag}{s}"))
@@ -578,6 +653,85 @@ class MemoBackend(PythonECDSABackend):
         if not r[0]:
             raise r[1][0](*r[1][1])
         return r[1]
+
+
+def watch_shared(obj):
+    """every read / write / delete of an INSTANCE attribute of `obj` made by a scheduled thread becomes a pre-emption point
+    (`dsched` kind `op`): the object is what several receive threads share (the one ECDSA backend of a station), its
+    instance state is what the model assumes a verification neither leaves behind nor consults.  A backend that keeps
+    nothing in `self` on the verification path has no such point at all."""
+    base = type(obj)
+
+    def point():
+        s = dsched._active
+        if s is not None:
+            s.yield_point("op")
+
+    class Watched(base):
+        def __getattribute__(self, name):
+            if name in object.__getattribute__(self, "__dict__"):
+                point()
+            return base.__getattribute__(self, name)
+
+        def __setattr__(self, name, value):
+            point()
+            base.__setattr__(self, name, value)
+
+        def __delattr__(self, name):
+            point()
+            base.__delattr__(self, name)
+    Watched.__name__ = base.__name__
+    obj.__class__ = Watched
+    return obj
+
+
+class fast_ecdsa:
+    """context manager: the pure number-crunching of the `ecdsa` package (VerifyingKey construction with its point
+    validation, signature verification) memoised for the duration of a schedule exploration.  Third-party library
+    functions, pure in their arguments; the repository's backend code -- the thing under test -- runs unchanged on top"""
+    _vks, _ver = {}, {}
+
+    def __enter__(self):
+        import ecdsa
+        import ecdsa.ellipticcurve as ec
+        self.ec, self.VK = ec, ecdsa.VerifyingKey
+        self.saved = (None, self.VK.__dict__["from_public_point"], self.VK.verify)
+        real_fpp, real_verify = self.VK.from_public_point, self.VK.verify
+        vks, ver = fast_ecdsa._vks, fast_ecdsa._ver
+
+        def from_public_point(point_, curve=None, hashfunc=None, validate_point=True):
+            k = (point_.x(), point_.y(), getattr(curve, "name", None), validate_point)
+            if k not in vks:
+                kw = {} if hashfunc is None else {"hashfunc": hashfunc}
+                vks[k] = real_fpp(point_, curve=curve, validate_point=validate_point, **kw) if curve is not None \
+                    else real_fpp(point_, validate_point=validate_point, **kw)
+            return vks[k]
+
+        def verify(vk, signature, data, hashfunc=None, sigdecode=None, allow_truncate=True):
+            k = (vk.to_string(), bytes(signature) if isinstance(signature, (bytes, bytearray)) else repr(signature), bytes(data),
+                 getattr(hashfunc, "__name__", None), getattr(sigdecode, "__name__", None), allow_truncate)
+            if k not in ver:
+                kw = {}
+                if hashfunc is not None:
+                    kw["hashfunc"] = hashfunc
+                if sigdecode is not None:
+                    kw["sigdecode"] = sigdecode
+                try:
+                    ver[k] = (True, real_verify(vk, signature, data, allow_truncate=allow_truncate, **kw))
+                except Exception as e:  # noqa: BLE001 - BadSignatureError etc.: part of the function's behaviour
+                    ver[k] = (False, e)
+            ok, val = ver[k]
+            if not ok:
+                raise val
+            return val
+        self.VK.from_public_point = staticmethod(from_public_point)
+        self.VK.verify = verify
+        return self
+
+    def __exit__(self, *a):
+        self.VK.from_public_point = self.saved[1]
+        self.VK.verify = self.saved[2]
+        return False
 
 
 def _codes_of(obj, modname, acc):
@@ -631,8 +785,13 @@ class ConcEnv:
 
     def station(self, pair):
         ats = [self.tickets[k] for k in pair.get("preload", [])]
-        R = sc.RouterStation(self.backend, 9, [self.root], [self.aa], ats, lat=415000100, lon=21000100,
+        # "shared-backend" scenarios: the repository's own backend, one fresh instance per run, shared by the receive
+        # threads of the station and watched (see watch_shared); otherwise the memoising backend
+        backend = self.backend if pair.get("points") != "backend" else PythonECDSABackend()
+        R = sc.RouterStation(backend, 9, [self.root], [self.aa], ats, lat=415000100, lon=21000100,
                              enabled=True, has_verify=True, has_sign=pair.get("has_sign", True))
+        if pair.get("points") == "backend":
+            watch_shared(backend)
         R.set_position(T0)
         return R, ats
 
@@ -661,7 +820,7 @@ class ConcRun:
     """the frames of `pair` handed to ONE real station by one thread each, under `policy` (None = no scheduler: the
     calls are made one after the other in the order `serial`)"""
 
-    def __init__(self, env, pair, policy=None, serial=(0, 1), max_steps=40000):
+    def __init__(self, env, pair, policy=None, serial=None, max_steps=40000):
         frames = [bytes.fromhex(f) for f in pair["frames"]]
         self.frames, self.env = frames, env
         R, ats = env.station(pair)
@@ -701,14 +860,17 @@ class ConcRun:
 
         self.dumps = []
         if policy is None:
-            for i in serial:
+            for i in (serial if serial is not None else range(n)):
                 cur["i"] = i
                 body(i)()
                 if env.A is not None:
                     self.dumps.append(R.dump(env.A))
             self.steps, self.choices, self.abort = [], [], None
         else:
-            s = dsched.DSched(policy, line_files=CONC_LINE_FILES, opcode_codes=conc_codes(), max_steps=max_steps)
+            if pair.get("points") == "backend":
+                s = dsched.DSched(policy, line_files=(), opcode_codes=(), max_steps=max_steps)
+            else:
+                s = dsched.DSched(policy, line_files=CONC_LINE_FILES, opcode_codes=conc_codes(), max_steps=max_steps)
             self.sched = s
             for i in range(n):
                 s.spawn(body(i), name=f"rx{i}")
@@ -803,6 +965,101 @@ def conc_pairs(ctx, w):
     add("cert-vs-attacker-sig-genuine-cert", g, forge(g, "attacker-sig-genuine-cert"))
     add("cert-vs-truncated", g, g[:4 + (len(g) - 4) // 2])
     return pairs
+
+
+def conc_trios(ctx, w):
+    """THREE packets on three receive threads that share ONE ECDSA backend (`points: backend`): a genuine packet of a
+    victim ticket V, a genuine packet of another trusted station I (the insider) and a packet that NAMES V but is signed
+    with I's key (equivalently: I's packet with the signer field altered) -- sequentially a FALSE_SIGNATURE.  Second trio:
+    the forger is an outsider with a self-made chain.  Both tickets pre-loaded (two verify_with_pk calls per packet)."""
+    rng = ctx.rng
+    dec = [(k, f, sc.decode_signed(f[4:])[0]) for k, f in w.base]
+
+    def frames_of(at):
+        h = sc.hid8(at.certificate)
+        return [f for k, f, sd in dec if k != "denm" and (
+            (sd["signer"][0] == "digest" and bytes(sd["signer"][1]) == h)
+            or (sd["signer"][0] == "certificate" and sd["signer"][1] and sc.hid8(sd["signer"][1][0]) == h))]
+
+    def forged(frame, key_id):
+        sd = copy.deepcopy(sc.decode_signed(frame[4:])[0])
+        pl = bytearray(sd["tbsData"]["payload"]["data"]["content"][1])
+        pl[-1] ^= 0xA5
+        sd["tbsData"]["payload"]["data"]["content"] = ("unsecuredData", bytes(pl))
+        resign(w, sd, key_id)                    # the signer field keeps naming the victim's ticket
+        return frame[:4] + reencode(sd)
+    names = {"at1": w.at1, "at2": w.at2}
+    v, i = rng.choice([("at1", "at2"), ("at2", "at1")])
+    gv, gi = frames_of(names[v]), frames_of(names[i])
+    trios = []
+
+    def add(name, frames, **kw):
+        order = list(range(3))
+        rng.shuffle(order)                       # which thread carries which packet
+        trios.append(dict(name=name, frames=[frames[j].hex() for j in order], points="backend", **kw))
+    if gv and gi:
+        a = rng.choice(gv)
+        add("shared-backend:victim|insider|insider-signed-naming-victim", [a, rng.choice(gi), forged(rng.choice(gv), names[i].key_id)],
+            preload=["at1", "at2"])
+    if gv:
+        add("shared-backend:victim|outsider-chain|outsider-signed-naming-victim",
+            [rng.choice(gv), signed_under(w, rng.choice(gv), w.eat, "certificate"), forged(rng.choice(gv), w.eat.key_id)],
+            preload=[v])
+    return trios
+
+
+class _Found(Exception):
+    pass
+
+
+def explore_shared_backend(ctx, env, w, bound, cap, stop_on_first=True):
+    """the trios of `conc_trios` under every schedule with <= `bound` pre-emptions (fewest first, at most `cap` runs) whose
+    pre-emption points are the accesses to the shared backend's instance state; every run judged per call by the
+    authenticity oracle, and compared with the six serial orders of the real code"""
+    import itertools
+    with fast_ecdsa():
+        for trio in conc_trios(ctx, w):
+            serial_real = []
+            for order in itertools.permutations(range(3)):
+                r = ConcRun(env, trio, None, serial=order)
+                ctx.evals()
+                for b in r.judge():
+                    ctx.violation(f"three packets one after the other, {trio['name']} order {order}: {b}",
+                                  conc_case(env, trio, [], [b]) | {"serial": list(order)})
+                serial_real.append((r.outs, r.state))
+            state = {"odd": 0, "points": 0}
+
+            def once(prefix):
+                run = ConcRun(env, trio, dsched.Replay(prefix))
+                ctx.evals()
+                ctx.cover("conc_runs_" + trio["name"].split(":")[0])
+                state["points"] = max(state["points"], sum(1 for st in run.steps if st[3] == "op"))
+                ctx.nontrivial(("conc3", trio["name"], run.outs, run.state))
+                bad = run.judge()
+                if bad:
+                    again = ConcRun(env, trio, dsched.Replay(run.choices))
+                    if again.outs != run.outs:
+                        ctx.note(f"conc {trio['name']}: schedule replay diverged ({again.outs} vs {run.outs})")
+                    ctx.violation(f"overlapping receive threads sharing one ECDSA backend, {trio['name']}: {bad[0]} "
+                                  f"[outcomes {short(run.outs)}; {dsched.preemptions(run.steps)} pre-emption(s)]",
+                                  conc_case(env, trio, run.choices, bad))
+                    raise _Found()
+                if (run.outs, run.state) not in serial_real and state["odd"] < 2:
+                    state["odd"] += 1
+                    ctx.mismatch("conc-serialisability", conc_case(env, trio, run.choices, []),
+                                 {"outs": short(run.outs), "state": run.state},
+                                 [{"outs": short(o), "state": st} for o, st in serial_real])
+                return run.steps
+            try:
+                runs, exhausted = dsched.enumerate_schedules(once, bound, cap, ctx.rng, order="bfs")
+                ctx.cover("conc_shared_backend_schedules", runs)
+                if exhausted:
+                    ctx.cover("conc_shared_backend_exhausted_bound_%d" % bound)
+            except _Found:
+                if stop_on_first:
+                    return True
+            ctx.cover("conc_shared_backend_state_access_points_%s" % ("0" if state["points"] == 0 else "some"))
+    return False
 
 
 def conc_case(env, pair, choices, bad):
@@ -995,6 +1252,9 @@ def run(ctx):
                     # quick: a seeded random sample of the schedules with <= 1 pre-emption per pair; thorough: all of
                     # them, then a sample of those with <= 2 -- 30-50 ms per schedule (opcode tracing of the OER codec)
                     conc_explore(ctx, env, info, phases=ctx.scale([(1, 45)], [(1, 450), (2, 200)]), n_pct=ctx.scale(5, 40))
+                    # three threads, one shared backend: a backend without instance state on the verification path has
+                    # no pre-emption point (a handful of thread orders); with such state: all schedules up to the bound
+                    explore_shared_backend(ctx, env, w, bound=ctx.scale(1, 3), cap=ctx.scale(80, 30000))
                 if ctx.thorough and wi == 0:
                     check_all_bitflips(ctx, w, clock, 8)
     finally:
@@ -1014,6 +1274,9 @@ def search(ctx):
                     # overlapping receive threads first (a broken re-entrancy obligation points here): every pair kind,
                     # pre-emption bound 2, more PCT; judged on the real code by the oracle only
                     env, info, _ = conc_serial(ctx, w, 8, model=False)
+                    # state kept in the shared backend first (cheap when there is none: no pre-emption point)
+                    if explore_shared_backend(ctx, env, w, bound=3, cap=ctx.scale(30000, 60000)) or ctx.violations:
+                        return
                     conc_explore(ctx, env, info, phases=ctx.scale([(1, 150), (2, 250)], [(1, 450), (2, 1500)]),
                                  n_pct=ctx.scale(40, 300), stop_on_first=True)
                     if ctx.violations:
@@ -1104,6 +1367,20 @@ def replay_case(case):
                                                        "ciphertext": ("aes128ccm", {"nonce": bytes(12), "ccmCiphertext": plain})})):
                     check(base[:4] + sc.make_envelope(ch, content), kind, f"with envelope content {ch} ")
                 continue
+            elif what == "requested-root-injection":
+                # attacker packets under a self-made root, before and after a GENUINE packet that carries that root in
+                # headerInfo.requestedCertificate (receiver with its sign service wired in, as in the examples)
+                carrier = with_requested_certificate(w, base, w.eroot1)
+                if carrier is None:
+                    continue
+                check(signed_under(w, base, w.eat1, "certificate", 1), kind, "signed under a self-made root (before the injection) ")
+                oracle.observe(carrier)
+                R.receive(carrier)
+                check(signed_under(w, base, w.eat1, "certificate", 2), kind,
+                      "signed under a self-made root, after a genuine packet carried that root in requestedCertificate, ")
+                check(signed_under(w, base, w.eat1, "digest", 3), kind,
+                      "naming by digest a ticket of the self-made root, after the injection, ")
+                break          # one injection per receiver: the packets "before" must really come before
             elif what in ("raise-then-unsecured", "rhl-then-unsecured"):
                 # a GENUINE packet whose processing behind the gate raises (injected fault / hop limit above the MHL),
                 # then an unsecured packet on the same receive path
